@@ -1245,25 +1245,71 @@ def check_cache_and_lazy(repo, chk):
     from ..model import norm_text, walk_local
     from ..mustpass import must_pass
 
-    chk.rule("M1", "cached-data read back is the identity: `data = self.cached_data.get(idx, None); if data is not None: return data` - the cache holds fully processed samples, nothing is re-applied on a hit")
+    chk.rule("M1", "cached-data read back is the identity: get_data(idx) of every data class, interpreted with the sample present in self.cached_data (every other method of the class a probe), returns the cached object itself and hands it to no processing step (process_scale ...) - the cache file is written after processing, so nothing is re-applied on a hit; without a cache entry the loaded sample goes through process_scale once")
     chk.rule("M2", "LazyCall.as_dataset stores the requested batch size on every path before returning (iteration reads self.batch_size)")
+    import sympy as sp
+
+    from ..sym import SelfObj, Translator, Unmodelled
     n = 0
     m = repo.mod("tf_pwa/config_loader/data.py")
-    for f in m.funcs.values():
-        hits = [x for x in walk_local(f.node) if isinstance(x, ast.Assign) and isinstance(x.value, ast.Call) and norm_text(x.value.func) == "self.cached_data.get" and isinstance(x.targets[0], ast.Name)]
-        for a in hits:
-            var = a.targets[0].id
-            for st in walk_local(f.node):
-                if isinstance(st, ast.If) and norm_text(st.test) == "%s is not None" % var:
-                    rets = [r for r in st.body if isinstance(r, ast.Return)]
-                    for r in rets:
-                        n += 1
-                        ok = isinstance(r.value, ast.Name) and r.value.id == var
-                        chk.instance("M1", "%s: cache hit returns `%s`: %s" % (f.key, norm_text(r.value), ok))
-                        if not ok:
-                            chk.violation("M1", f.key, "cache-hit", "on a cache hit the function returns `%s` instead of the cached object `%s`: processing that was applied before the sample was cached is applied a second time" % (norm_text(r.value), var), file=m.rel, line=r.lineno)
-    if n < 2:
-        raise AnalysisError("fewer than 2 cached_data read-back sites found in config_loader/data.py")
+    for cls in m.all_classes:
+        f = cls.methods.get("get_data")
+        if f is None or not any(isinstance(x, ast.Attribute) and x.attr == "cached_data" for x in ast.walk(f.node)):
+            continue
+        for hit in (True, False):
+            cached = {"weight": sp.Symbol("w_cached"), "tag": "cached sample"}
+            calls = []
+
+            def probe(name):
+                def h(tr_, args, kwargs, node):
+                    a = [x for x in args if not (isinstance(x, SelfObj) and x.cls is not None)]
+                    calls.append((name, a))
+                    if name == "process_scale":
+                        return {"tag": "scaled", "of": a[-1] if a else None}
+                    if name == "load_data":
+                        return {"tag": "loaded"}
+                    if name == "get_data_file":
+                        return ["file.dat"]
+                    if name == "get_weight_sign":
+                        return sp.Integer(1)
+                    return sp.Symbol("probe_" + name)
+                return h
+
+            def isinst(tr_, args, kwargs, node):
+                names = {x.id for x in ast.walk(node.args[1]) if isinstance(x, ast.Name)} if len(node.args) > 1 else set()
+                v = args[0]
+                table = {"list": list, "tuple": tuple, "dict": dict, "str": str}
+                if any(nm_ in table and isinstance(v, table[nm_]) for nm_ in names):
+                    return True
+                if names & {"int", "float"} and (isinstance(v, (int, float)) or getattr(v, "is_number", False)):
+                    return True
+                return False
+
+            hooks = {"allow_attr_store": True, "builtin.isinstance": isinst}
+            for c in cls.mro:
+                for nm, g in c.methods.items():
+                    if nm != "get_data" and g.key not in hooks:
+                        hooks[g.key] = probe(nm)
+            so = SelfObj(cls, {"cached_data": ({"bg": cached} if hit else {}), "dic": {}, "scale_list": ["bg"], "extra_var": [], "_Ngroup": sp.Integer(1)})
+            tr = Translator(repo, hooks=hooks, max_depth=1)
+            try:
+                out = tr.call_fn(f, ["bg"], self_obj=so)
+            except Unmodelled as e:
+                raise AnalysisError("%s cannot be interpreted (cache %s): %s" % (f.key, "hit" if hit else "miss", e))
+            n += 1
+            scaled = [a for nm, a in calls if nm == "process_scale"]
+            if hit:
+                ok = out is cached and not any(any(x is cached for x in a) for a in scaled)
+                chk.oblige("M1", "%s: a cache hit returns the cached sample itself, unprocessed" % f.key, ok)
+                if not ok:
+                    chk.violation("M1", f.key, "cache-hit", "on a cache hit the function returns %s%s instead of the cached object: processing that was applied before the sample was cached (weight scaling by N_data / N_bg) is applied again on every read" % ("the result of process_scale " if isinstance(out, dict) and out.get("tag") == "scaled" else "", {k: v for k, v in out.items() if k != "of"} if isinstance(out, dict) else out), file=m.rel, line=f.lineno)
+            else:
+                ok = isinstance(out, dict) and out.get("tag") == "scaled" and len(scaled) == 1
+                chk.oblige("M1", "%s: without a cache entry the loaded sample is scaled once" % f.key, ok)
+                if not ok:
+                    chk.violation("M1", f.key, "cache-miss", "without a cache entry get_data returns %s after %d process_scale calls: the freshly loaded sample must be scaled exactly once" % (out if not isinstance(out, dict) else out.get("tag"), len(scaled)), file=m.rel, line=f.lineno)
+    if n < 4:
+        raise AnalysisError("fewer than 2 get_data accessors with a cached_data read-back found in config_loader/data.py")
     # the cache is written from the same accessor that reads it (save after processing)
     fn = repo.fn("tf_pwa/data.py::LazyCall.as_dataset")
     if "batch" not in fn.all_param_names():
